@@ -329,6 +329,21 @@ func (err *tryEndError) Error() string {
 	return err.err.Error()
 }
 
+// isHaltError reports whether the error is a HaltError, possibly
+// raised after try bodies (and thus wrapped by tryEndError).
+func isHaltError(err error) bool {
+	for {
+		switch e := err.(type) {
+		case *tryEndError:
+			err = e.err
+		case *HaltError:
+			return true
+		default:
+			return false
+		}
+	}
+}
+
 type invalidPathError struct {
 	v any
 }
